@@ -20,8 +20,8 @@ import random
 
 ID = "C01"
 DRIVER = "drv_c01"
-LEAN_TARGETS = ["PharmpyProofs.C01.Properties", "PharmpyProofs.C01.PropertiesAdvan", "PharmpyProofs.C01.PropertiesOmega", "drv_c01"]
-PROPERTIES = ["PharmpyProofs/C01/Properties.lean", "PharmpyProofs/C01/PropertiesAdvan.lean", "PharmpyProofs/C01/PropertiesOmega.lean"]
+LEAN_TARGETS = ["PharmpyProofs.C01.Properties", "PharmpyProofs.C01.PropertiesAdvan", "PharmpyProofs.C01.PropertiesOmega", "PharmpyProofs.C01.PropertiesDes", "drv_c01"]
+PROPERTIES = ["PharmpyProofs/C01/Properties.lean", "PharmpyProofs/C01/PropertiesAdvan.lean", "PharmpyProofs/C01/PropertiesOmega.lean", "PharmpyProofs/C01/PropertiesDes.lean"]
 LEAN_SOURCES = ["PharmpyModel/C01/*.lean", "PharmpyModel/Generated/Advan.lean", "PharmpyProofs/C01/*.lean", "Drivers/C01.lean"]
 TIME_LIMIT = {"quick": 900, "thorough": 3000}
 CASE_CPU_LIMIT = 60
@@ -106,6 +106,8 @@ def g_expr(rng, avail, depth=0):
         return ["pow", e, ["num", rng.choice(["2", "3"]), None]]
     if r < 0.93:
         return ["neg", g_expr(rng, avail, depth + 1)]
+    if r < 0.945:
+        return ["fmod", g_leaf(rng, avail), ["num", *rng.choice([("2", "2"), ("3", "3")])]]
     f = rng.choice(FUNCS)
     a = g_leaf(rng, avail)
     if f in ("LOG", "SQRT"):
@@ -239,11 +241,17 @@ def gen_cases(rng: random.Random, n: int, tier: str):
         if r < 0.09:
             out.append(g_thetas_case(rng, seed))
             continue
-        if r < 0.36:
+        if r < 0.30:
             out.append(g_omega_case(rng, seed))
             continue
+        if r < 0.46:
+            out.append(g_des_case(rng, seed))
+            continue
+        if r < 0.52:
+            out.append(g_linear_case(rng, seed))
+            continue
         safe = rng.random() < 0.5
-        if r < 0.48:
+        if r < 0.60:
             pk, d = g_prog(rng, safe, rng.randint(2, 5))
             err, _ = g_prog(rng, safe, rng.randint(2, 5), () if rng.random() < 0.5 else d)
             # statements of $ERROR may read what $PK defined
@@ -290,6 +298,8 @@ def corpus_cases():
         # unary minus before literal ** (Fortran: -(2**2))
         {"kind": "prog", "layout": "pred", "stmts": [["=", "AA", ["neg", ["pow", _n(2), _n(2)]]],
                                                       ["=", "BB", ["fn", "EXP", ["neg", ["pow", _n(2), _n(2)]]]]], "stmts2": [], "seed": 22},
+        # MOD of a negative dividend (Fortran: sign of the dividend)
+        {"kind": "prog", "layout": "pred", "stmts": [["=", "AA", ["fmod", ["neg", _n(7)], _n(3)]], ["=", "BB", ["fmod", ["sub", ["sym", "X"], _n(9)], _n(2)]]], "stmts2": [], "seed": 24},
         # parenthesised logical sub-expression
         {"kind": "prog", "layout": "pred", "bool_parens": True,
          "stmts": [["=", "AA", _n(0)], ["if", ["not", X0], "AA", _n(1)]], "stmts2": [], "seed": 23},
@@ -342,6 +352,9 @@ def shrink(case):
     if case.get("kind") == "omega":
         yield from shrink_omega(case)
         return
+    if case.get("kind") == "des":
+        yield from shrink_des(case)
+        return
     if case.get("kind") != "prog":
         return
     for key in ("stmts", "stmts2"):
@@ -385,6 +398,8 @@ def r_expr(e, rng, lvl=0):
         return f"{e[1]}({e[2]})"
     if k == "fn":
         return f"{e[1]}({r_expr(e[2], rng, 0)})"
+    if k == "fmod":
+        return f"MOD({r_expr(e[1], rng, 0)},{r_expr(e[2], rng, 0)})"
     if k in ("add", "sub"):
         s = r_expr(e[1], rng, 0) + (" + " if k == "add" else " - ") + r_expr(e[2], rng, 1)
         my = 0
@@ -519,6 +534,10 @@ def w_prog(stmts, quirk=False):
     return out, ctr[0]
 
 
+def has_mod(x):
+    return isinstance(x, list) and ((len(x) > 0 and x[0] == "fmod") or any(has_mod(y) for y in x))
+
+
 def has_signpow(x):
     """a unary minus directly before `literal ** …` somewhere in the statement / expression."""
     if not isinstance(x, list):
@@ -580,6 +599,9 @@ def _rel(op, a, b):
 FN = {"exp": lambda a: sympy.exp(a), "log": lambda a: sympy.log(a), "sqrt": lambda a: sympy.sqrt(a), "abs": lambda a: sympy.Abs(a)}
 
 
+_MOD_FORTRAN = [True]
+
+
 def ev(s, env):
     """wire expression -> exact value (sympy number) or python bool; raises Undef."""
     if isinstance(s, int):
@@ -614,6 +636,14 @@ def ev(s, env):
     b = ev(s[2], env)
     if op in RELS:
         return bool(_rel(op, a, b))
+    if op == "fmod":
+        if b == 0:
+            raise Undef()
+        if _MOD_FORTRAN[0]:
+            q = a / b
+            tq = sympy.floor(q) if q >= 0 else sympy.ceiling(q)      # Fortran MOD(a,b) = a - b*INT(a/b): sign of a
+            return a - b * tq
+        return sympy.Mod(a, b)                                        # sympy.Mod: sign of b
     if op == "add":
         return a + b
     if op == "sub":
@@ -874,10 +904,13 @@ def k_record(drv, wire, rec_statements, rng, label, k, tags):
             env = {nme: rand_value(rng, nme) for nme in names}
             kinds = []
             try:
+                _MOD_FORTRAN[0] = False          # model vs code: the code's MOD is sympy.Mod
                 vm = ev(ms[2], env)
             except Undef as u:
                 vm = None
                 kinds.append(u.kind)
+            finally:
+                _MOD_FORTRAN[0] = True
             try:
                 vc = ev_sympy(ce, env)
             except Undef as u:
@@ -916,7 +949,7 @@ def _wsyms(s, acc=None):
 
 def has_fn(w):
     if isinstance(w, list) and w:
-        return (isinstance(w[0], str) and w[0] in FN) or any(has_fn(x) for x in w)
+        return (isinstance(w[0], str) and (w[0] in FN or w[0] == "fmod")) or any(has_fn(x) for x in w)
     return False
 
 
@@ -1035,6 +1068,8 @@ def run_prog(case, drv):
                     cls = mon_class(unsafe)
                     if cls == "translate-unsound-safe-statement" and has_signpow(st):
                         cls = "unary-minus-literal-power"
+                    elif cls == "translate-unsound-safe-statement" and has_mod(st):
+                        cls = "mod-negative-dividend"
                     shown = {q: str(v) for q, v in env_nm.items() if q in base_names or q == "F"}
                     mon.append({"cls": cls, "what": f"after `{' | '.join(r_stmts([st], random.Random(0)))}` ({rname}) NM-TRAN has {x} = {vn}, "
                                 f"the model object has {x} = {'undefined' if vi is None else vi} at {shown}; components failing: {unsafe}"})
@@ -1189,6 +1224,10 @@ def run_case(case, drv):
         return run_omega(case, drv)
     if kind == "thetas":
         return run_thetas(case, drv)
+    if kind == "des":
+        return run_des(case, drv)
+    if kind == "linear":
+        return run_linear(case, drv)
     raise ValueError(kind)
 
 
@@ -1642,3 +1681,440 @@ def run_thetas(case, drv):
         cls = "theta-fortran-d-exponent" if (case.get("dexp") and got[:-1] == want[:-1]) else "theta-values"
         mon.append({"cls": cls, "what": f"`{th}` read as {got}, documented meaning {want}"})
     return {"k": k, "mon": mon, "tags": tags, "nontrivial": len(want) > 1}
+
+
+# ================================================================ $DES models (ADVAN6/8/9/13): same differential equations
+# (added after a seeded change in to_compartmental_system — accumulation of several terms of one flow — was not caught)
+
+COMP_NAMES = ["CENTRAL", "PERIPH", "DEPOT", "TISSUE", "EFFECT", "GUT", "LIVER", "ZED", "ALPHA"]
+PK_SYMS = ["K10", "K12", "K21", "KA", "KX", "VM", "KM", "CL", "V1", "Q", "R0", "KT"]
+
+
+def _s(x):
+    return ["sym", x]
+
+
+def _A(i):
+    return ["par", "A", i]
+
+
+def _mul(*xs):
+    out = xs[0]
+    for x in xs[1:]:
+        out = ["mul", out, x]
+    return out
+
+
+def g_des_case(rng, seed):
+    n = rng.choice([2, 2, 3, 3, 4])
+    names = rng.sample(COMP_NAMES, n)
+    syms = list(PK_SYMS)
+    rng.shuffle(syms)
+    nth = 6
+    pk = []
+    for i, sname in enumerate(PK_SYMS):
+        th = ["par", "THETA", (i % nth) + 1]
+        r = rng.random()
+        if r < 0.15:
+            e = _mul(th, ["fn", "EXP", ["par", "ETA", 1]])
+        elif r < 0.3:
+            e = ["div", th, ["par", "THETA", ((i + 2) % nth) + 1]]
+        elif r < 0.4:
+            e = ["add", th, ["num", str(rng.randint(1, 3)), None]]
+        else:
+            e = th
+        pk.append(["=", sname, e])
+    # DES-local assignments
+    local = []
+    if rng.random() < 0.5:
+        local.append(["=", "KEL", ["div", _s("CL"), _s("V1")]])
+    if rng.random() < 0.35:
+        local.append(["=", "C1", ["div", _A(1), _s("V1")]])
+    lsyms = [st[1] for st in local]
+
+    def rate_sym():
+        return _s(rng.choice([x for x in PK_SYMS if x not in ("V1", "KM", "R0")] + [x for x in lsyms if x == "KEL"]))
+
+    def term(src, dst):
+        """one additive term of the flow src -> dst (dst None = elimination); returns an expression."""
+        r = rng.random()
+        a = _A(src)
+        if r < 0.40:
+            return _mul(rate_sym(), a)
+        if r < 0.52:
+            return _mul(["div", _s("Q"), _s("V1")], a)
+        if r < 0.70:
+            return ["div", _mul(_s("VM"), a), ["add", _s("KM"), a]]
+        if r < 0.80:
+            return _mul(["num", str(rng.randint(2, 3)), None], rate_sym(), a)
+        if r < 0.92:
+            return _mul(["add", rate_sym(), rate_sym()], a)                      # (K12 + KX)*A(i): expands into two terms
+        if dst is not None and r < 0.97:
+            return _mul(rate_sym(), a, _A(dst))                                    # amount product (second order)
+        return _mul(rate_sym(), ["pow", a, ["num", "2", None]])
+
+    eqs = [[] for _ in range(n)]      # signed terms: (sign, expr)
+    pairs = [(i, j) for i in range(1, n + 1) for j in range(1, n + 1) if i != j]
+    rng.shuffle(pairs)
+    for (i, j) in pairs[:rng.randint(1, min(len(pairs), n + 1))]:
+        for _ in range(rng.choice([1, 1, 2, 2, 3])):
+            t = term(i, j)
+            eqs[i - 1].append((-1, t))
+            eqs[j - 1].append((+1, t))
+    for i in range(1, n + 1):
+        if rng.random() < 0.6:
+            for _ in range(rng.choice([1, 1, 2])):
+                eqs[i - 1].append((-1, term(i, None)))
+        if rng.random() < 0.2:
+            eqs[i - 1].append((+1, rng.choice([_s("R0"), _mul(_s("KT"), _s("R0"))])))
+        if "C1" in lsyms and rng.random() < 0.3:
+            eqs[i - 1].append((-1, _mul(_s("CL"), _s("C1"))))
+    des = []
+    for i in range(n):
+        terms = list(eqs[i])
+        if not terms:
+            terms = [(-1, _mul(_s("K10"), _A(i + 1)))]
+        rng.shuffle(terms)
+        e = None
+        for sg, t in terms:
+            if e is None:
+                e = t if sg > 0 else ["neg", t]
+            else:
+                e = ["add" if sg > 0 else "sub", e, t]
+        des.append(["=", f"DADT({i + 1})", e])
+    obs = rng.randint(1, n)
+    err = [["=", "IPRED", ["div", _A(obs), _s("V1")]],
+           ["=", "W", ["add", ["mul", _A(rng.randint(1, n)), ["num", "1/4", "0.25"]], ["num", "1", None]]],
+           ["=", "Y", ["add", _s("IPRED"), _mul(_s("W"), ["par", "EPS", 1])]]]
+    return {"kind": "des", "advan": rng.choice(["ADVAN6", "ADVAN13", "ADVAN8", "ADVAN9"]), "names": names, "defdose": rng.randint(1, n),
+            "defobs": rng.choice([None, rng.randint(1, n)]), "pk": pk, "local": local, "des": des, "err": err, "seed": seed}
+
+
+def _to_sympy(e, amt):
+    """generated expression -> sympy over plain symbols; A(i) -> amt[i]."""
+    k = e[0]
+    if k == "num":
+        return sympy.Rational(e[1])
+    if k == "sym":
+        return sympy.Symbol(e[1], positive=True)
+    if k == "par":
+        return amt[e[2]] if e[1] == "A" else sympy.Symbol(f"{e[1]}_{e[2]}", positive=True)
+    if k == "neg":
+        return -_to_sympy(e[1], amt)
+    if k == "fn":
+        return {"EXP": sympy.exp, "LOG": sympy.log, "SQRT": sympy.sqrt, "ABS": sympy.Abs}[e[1]](_to_sympy(e[2], amt))
+    a, b = _to_sympy(e[1], amt), _to_sympy(e[2], amt)
+    return {"add": a + b, "sub": a - b, "mul": a * b, "div": a / b, "pow": a ** b}[k]
+
+
+def des_terms(case):
+    """the expanded equations as the Lean model takes them: per equation a list of (mono id, coef, amounts),
+    plus the sympy monomials by id (for numeric evaluation)."""
+    n = len(case["names"])
+    amt = {i: sympy.Symbol(f"A__{i}", positive=True) for i in range(1, n + 1)}
+    monos, ids = [], {}
+    prog = []
+    for st in case["des"]:
+        ex = sympy.expand(_to_sympy(st[2], amt))
+        eq = []
+        for t in sympy.Add.make_args(ex):
+            if t == 0:
+                continue
+            c, rest = t.as_coeff_Mul()
+            key = sympy.srepr(rest)
+            if key not in ids:
+                ids[key] = len(monos)
+                monos.append(rest)
+            eq.append((ids[key], sympy.Rational(c), sorted(i - 1 for i in amt if rest.has(amt[i]))))
+        prog.append(eq)
+    return prog, monos, amt
+
+
+def des_unsafe_py(prog):
+    """DesSafe re-implemented on the term lists (mirrors PharmpyModel/C01/Des.lean)."""
+    n = len(prog)
+    out = []
+    for i, eq in enumerate(prog):
+        amounts = []
+        for _, _, am in eq:
+            for a in am:
+                if a not in amounts:
+                    amounts.append(a)
+        for a in amounts:
+            for (m, c, am) in eq:
+                if a not in am or c <= 0:
+                    continue
+                has_neg = lambda j: any(m2 == m and c2 == -c for (m2, c2, _) in prog[j])
+                cands = [j for j in am if has_neg(j)] if len(am) >= 2 else [j for j in range(n) if has_neg(j)]
+                if not cands:
+                    continue
+                f = cands[-1]
+                if not (f == a and f != i and a < n):
+                    cls = "multi-amount" if len(am) >= 2 else "foreign-equation"
+                    if cls not in out:
+                        out.append(cls)
+    return out
+
+
+def run_des(case, drv):
+    rng = random.Random(case["seed"])
+    k, mon, tags = [], [], []
+    names = case["names"]
+    n = len(names)
+    comps = []
+    for i, nme in enumerate(names, 1):
+        opts = ([" DEFDOSE"] if i == case["defdose"] else []) + ([" DEFOBS"] if i == case["defobs"] else [])
+        comps.append(f"COMP=({nme}{''.join(opts)})")
+    text = ("$PROBLEM c01\n$INPUT ID TIME AMT DV X W\n$DATA c01.csv IGNORE=@\n"
+            f"$SUBROUTINES {case['advan']} TOL=6\n$MODEL " + " ".join(comps) + "\n$PK\n" + "\n".join(r_stmts(case["pk"], rng)) + "\n$DES\n"
+            + "\n".join(r_stmts(case["local"] + case["des"], rng)) + "\n$ERROR\n" + "\n".join(r_stmts(case["err"], rng)) + "\n"
+            "$THETA (0,1) (0,10) (0,2) (0,20) (0,5) (0,3)\n$OMEGA 0.1\n$SIGMA 0.1\n$ESTIMATION METHOD=1 INTER\n")
+    prog, monos, amt = des_terms(case)
+    unsafe = des_unsafe_py(prog)
+    tags += [f"des:n={n}", "des:" + ("safe" if not unsafe else "+".join(unsafe)), f"des:{case['advan']}"]
+    if any(len([1 for (m, c, am) in eq if c > 0 and len(am) == 1]) >= 2 for eq in prog):
+        tags.append("des:several-positive-terms-in-an-equation")
+    try:
+        model = read_model_from_string(text)
+    except Exception as e:
+        mon.append({"cls": "des-read-raises", "what": f"read_model_from_string raised {type(e).__name__}: {str(e)[:200]} on\n{text}"})
+        return {"k": k, "mon": mon, "tags": tags, "nontrivial": True}
+    cs = model.statements.ode_system
+    if cs is None:
+        mon.append({"cls": "des-no-ode-system", "what": f"no ODE system in the model read from\n{text}"})
+        return {"k": k, "mon": mon, "tags": tags, "nontrivial": True}
+    thetas = [p for p in model.parameters.names if p.startswith("THETA")]
+    ren = {f"THETA({i + 1})": nme for i, nme in enumerate(thetas)}
+    ren.update({f"ETA({i + 1})": nme for i, nme in enumerate(model.random_variables.etas.names)})
+    ren.update({f"EPS({i + 1})": nme for i, nme in enumerate(model.random_variables.epsilons.names)})
+    # ---- K (g): Lean translateDes vs the flows / outputs / inputs of the model object
+    if drv is not None:
+        wire = [[[m, _wfrac(c), am] for (m, c, am) in eq] for eq in prog]
+        ans = drv.ask(["des", wire])
+        lflows, lrest, lsafe = ans[0][1:], ans[1][1:], ans[2]
+        if lsafe[1:] != unsafe or (lsafe[0] == "safe") != (not unsafe):
+            k.append(f"des: Lean desUnsafe {lsafe} vs harness {unsafe}")
+        cobj = {nme: cs.find_compartment(nme) for nme in names}
+        if any(c is None for c in cobj.values()):
+            k.append(f"des: compartments {cs.compartment_names} vs $MODEL {names}")
+        else:
+            for trial in range(2):
+                base = {str(s_): sympy.Rational(rng.randint(1, 30), rng.randint(1, 7)) for mm in monos for s_ in mm.free_symbols}
+                avals = {i: base[f"A__{i}"] if f"A__{i}" in base else sympy.Rational(rng.randint(1, 30), rng.randint(1, 7)) for i in range(1, n + 1)}
+                for i in range(1, n + 1):
+                    base[f"A__{i}"] = avals[i]
+                mv = [mm.xreplace({s_: base[str(s_)] for s_ in mm.free_symbols}) for mm in monos]
+                env = {kk: v for kk, v in base.items() if not kk.startswith("A__")}
+                env.update({f"A_{names[i - 1]}(t)": avals[i] for i in range(1, n + 1)})
+                env["t"] = sympy.Integer(1)
+                want = {}
+                for (f, t_, m, c, d) in lflows:
+                    key = (int(f), int(t_))
+                    want[key] = want.get(key, 0) + Fraction(c) * mv[int(m)] / avals[int(d) + 1]
+                for i in range(n):
+                    o = sum((-Fraction(c) * mv[int(m)] / avals[i + 1] for (m, c) in lrest[i] if Fraction(c) < 0), sympy.Integer(0))
+                    inp = sum((Fraction(c) * mv[int(m)] for (m, c) in lrest[i] if Fraction(c) > 0), sympy.Integer(0))
+                    want[(i, "out")] = o
+                    want[(i, "in")] = inp
+                bad = None
+                for i in range(n):
+                    for j in list(range(n)) + ["out", "in"]:
+                        if j == i:
+                            continue
+                        if j == "in":
+                            ce = cobj[names[i]].input
+                        else:
+                            ce = cs.get_flow(cobj[names[i]], output if j == "out" else cobj[names[j]])
+                        try:
+                            cv = ev_sympy(ce._sympy_(), env)
+                        except Undef:
+                            continue
+                        wv = sympy.nsimplify(want.get((i, j), 0)) if not isinstance(want.get((i, j), 0), sympy.Basic) else want.get((i, j), 0)
+                        if not same(sympy.sympify(wv), cv):
+                            bad = f"des: flow {names[i]}->{j if isinstance(j, str) else names[j]}: model object {ce} = {cv}, Lean model {wv} at {env}"
+                            break
+                    if bad:
+                        break
+                if bad:
+                    k.append(bad)
+                    break
+    # ---- monitor: the equations of the model object vs the literal DADT values of the text
+    order = {f"A_{nme}(t)": i for i, nme in enumerate(names, 1)}
+    for trial in range(4):
+        env_nm = {nme: rand_value(rng, nme) for nme in ["X", "W", "TIME", "AMT", "THETA(1)", "THETA(2)", "THETA(3)", "THETA(4)", "THETA(5)", "THETA(6)", "ETA(1)", "EPS(1)"]}
+        for q in range(1, 7):
+            env_nm[f"THETA({q})"] = sympy.Rational(rng.randint(1, 12), rng.choice([1, 2, 3]))
+        for i in range(1, n + 1):
+            env_nm[f"A({i})"] = sympy.Rational(rng.randint(1, 40), rng.choice([1, 2, 3, 5]))
+        env_ir = {ren.get(nme, nme): v for nme, v in env_nm.items() if not nme.startswith("A(")}
+        for i, nme in enumerate(names, 1):
+            env_ir[f"A_{nme}(t)"] = env_nm[f"A({i})"]
+        env_ir["t"] = env_nm["TIME"]
+        nm_exec(case["pk"], env_nm)
+        nm_exec(case["local"] + case["des"], env_nm)
+        for s in model.statements.before_odes:
+            try:
+                env_ir[str(s.symbol)] = ev_sympy(s.expression._sympy_(), env_ir)
+            except Undef:
+                env_ir[str(s.symbol)] = None
+        bad = None
+        seen_eq = set()
+        for eq in cs.eqs:
+            lhs = eq.lhs._sympy_()
+            fn = str(lhs.args[0])
+            if fn not in order:
+                bad = f"equation for unknown amount {fn}"
+                break
+            seen_eq.add(order[fn])
+            want = env_nm.get(f"DADT({order[fn]})")
+            if want is None:
+                continue
+            try:
+                got = ev_sympy(eq.rhs._sympy_(), env_ir)
+            except Undef:
+                continue
+            if not same(want, got):
+                shown = {q: str(v) for q, v in env_nm.items() if q.startswith(("THETA", "ETA", "A("))}
+                bad = (f"DADT({order[fn]}) [{fn}]: NM-TRAN $DES gives {want}, the equations of the model object give {got} "
+                       f"(`{eq.lhs} = {eq.rhs}`) at {shown}")
+                break
+        if bad is None and seen_eq != set(range(1, n + 1)):
+            bad = f"the model object has equations for compartments {sorted(seen_eq)} of {n}"
+        if bad:
+            cls = {"multi-amount": "des-amount-product-flow", "foreign-equation": "des-term-matched-in-foreign-equation"}.get(unsafe[0], "des-equations-differ") if unsafe else "des-equations-differ"
+            mon.append({"cls": cls, "what": bad + f"\n{text}"})
+            break
+        # $ERROR: A(i) must be the amount of compartment i of $MODEL
+        env_nm["F"] = env_nm[f"A({case['defobs'] or _default_obs(names)})"]
+        nm_exec(case["err"], env_nm)
+        for s in model.statements.after_odes:
+            try:
+                env_ir[str(s.symbol)] = ev_sympy(s.expression._sympy_(), env_ir)
+            except Undef:
+                env_ir[str(s.symbol)] = None
+        for x in ("F", "IPRED", "W", "Y"):
+            vn, vi = env_nm.get(x), env_ir.get(x)
+            if vn is not None and (vi is None or not same(vn, vi)):
+                mon.append({"cls": "des-error-amounts", "what": f"$ERROR: NM-TRAN has {x} = {vn}, the model object {x} = {vi} at A = "
+                            f"{[str(env_nm[f'A({i})']) for i in range(1, n + 1)]}\n{text}"})
+                bad = True
+                break
+        if bad:
+            break
+    return {"k": k, "mon": mon, "tags": tags, "nontrivial": True}
+
+
+def _default_obs(names):
+    return names.index("CENTRAL") + 1 if "CENTRAL" in names else 1
+
+
+def _wfrac(c):
+    c = sympy.Rational(c)
+    return str(c.p) if c.q == 1 else f"{c.p}/{c.q}"
+
+
+def shrink_des(case):
+    des = case["des"]
+    for i, st in enumerate(des):
+        e = st[2]
+        # drop one top-level additive term
+        def drops(x):
+            if x[0] in ("add", "sub"):
+                yield x[1]
+                if x[0] == "add":
+                    yield x[2]
+                else:
+                    yield ["neg", x[2]]
+                for y in drops(x[1]):
+                    yield [x[0], y, x[2]]
+        for cand in drops(e):
+            c = dict(case)
+            c["des"] = des[:i] + [[st[0], st[1], cand]] + des[i + 1:]
+            yield c
+    if case["local"]:
+        c = dict(case)
+        c["local"] = []
+        uses = lambda x: isinstance(x, list) and (x[:2] in (["sym", "KEL"], ["sym", "C1"]) or any(uses(y) for y in x))
+        if not uses(case["des"]):
+            yield c
+
+
+# ================================================================ general linear models (ADVAN5 / ADVAN7): Kij rates, A(i) in $ERROR
+
+def g_linear_case(rng, seed):
+    n = rng.choice([2, 3, 3, 4])
+    names = rng.sample(COMP_NAMES, n)
+    pairs = [(i, j) for i in range(1, n + 1) for j in range(1, n + 1) if i != j]
+    rng.shuffle(pairs)
+    flows = sorted(pairs[:rng.randint(n - 1, min(len(pairs), n + 2))])
+    outs = sorted(rng.sample(range(1, n + 1), rng.randint(1, n)))
+    return {"kind": "linear", "advan": rng.choice(["ADVAN5", "ADVAN7"]), "names": names, "defdose": rng.randint(1, n),
+            "defobs": rng.choice([None, rng.randint(1, n)]), "flows": [list(f) for f in flows], "outs": outs,
+            "kt": rng.random() < 0.3, "obs": [rng.randint(1, n), rng.randint(1, n)], "seed": seed}
+
+
+def run_linear(case, drv):
+    rng = random.Random(case["seed"])
+    k, mon, tags = [], [], [f"linear:{case['advan']}", f"linear:n={len(case['names'])}"]
+    names = case["names"]
+    n = len(names)
+    comps = []
+    for i, nme in enumerate(names, 1):
+        opts = ([" DEFDOSE"] if i == case["defdose"] else []) + ([" DEFOBS"] if i == case["defobs"] else [])
+        comps.append(f"COMP=({nme}{''.join(opts)})")
+    rates = {}
+    for q, (i, j) in enumerate(case["flows"]):
+        rates[(i, j)] = f"K{i}T{j}" if case["kt"] else f"K{i}{j}"
+    for i in case["outs"]:
+        rates[(i, 0)] = f"K{i}T0" if case["kt"] else f"K{i}0"
+    pk = "\n".join(f"{nm} = THETA({(q % 4) + 1})*{q + 2}" for q, nm in enumerate(rates.values()))
+    o1, o2 = case["obs"]
+    text = ("$PROBLEM c01\n$INPUT ID TIME AMT DV\n$DATA c01.csv IGNORE=@\n"
+            f"$SUBROUTINES {case['advan']} TRANS1\n$MODEL " + " ".join(comps) + f"\n$PK\n{pk}\nV1 = THETA(1)\n$ERROR\nIPRED = A({o1})/V1\n"
+            f"Y = IPRED + A({o2})*EPS(1)\n$THETA (0,1) (0,10) (0,2) (0,20)\n$OMEGA 0.1\n$SIGMA 0.1\n$ESTIMATION METHOD=1\n")
+    try:
+        model = read_model_from_string(text)
+    except Exception as e:
+        mon.append({"cls": "linear-read-raises", "what": f"read_model_from_string raised {type(e).__name__}: {str(e)[:200]} on\n{text}"})
+        return {"k": k, "mon": mon, "tags": tags, "nontrivial": True}
+    cs = model.statements.ode_system
+    order = {f"A_{nme}(t)": i for i, nme in enumerate(names, 1)}
+    for trial in range(3):
+        th = {q: sympy.Rational(rng.randint(1, 12), rng.choice([1, 2, 3])) for q in range(1, 5)}
+        A = {i: sympy.Rational(rng.randint(1, 40), rng.choice([1, 2, 3, 5])) for i in range(1, n + 1)}
+        eps = sympy.Rational(rng.randint(-4, 4), 2)
+        kv = {key: th[(q % 4) + 1] * (q + 2) for q, key in enumerate(rates)}
+        dadt = {i: sum((kv[(j, i2)] * A[j] for (j, i2) in kv if i2 == i), sympy.Integer(0))
+                - sum((kv[(i1, j)] * A[i] for (i1, j) in kv if i1 == i), sympy.Integer(0)) for i in range(1, n + 1)}
+        env = {nme: th[i + 1] for i, nme in enumerate([p for p in model.parameters.names if p.startswith("THETA")])}
+        env.update({f"A_{nme}(t)": A[i] for i, nme in enumerate(names, 1)})
+        env[model.random_variables.epsilons.names[0]] = eps
+        env["t"] = sympy.Integer(1)
+        for s in model.statements.before_odes:
+            env[str(s.symbol)] = ev_sympy(s.expression._sympy_(), env)
+        for eq in cs.eqs:
+            fn = str(eq.lhs._sympy_().args[0])
+            got = ev_sympy(eq.rhs._sympy_(), env)
+            if fn not in order or not same(dadt[order[fn]], got):
+                mon.append({"cls": "linear-equations-differ", "what": f"{fn}: general linear model gives {dadt.get(order.get(fn))}, the model object "
+                            f"`{eq.lhs} = {eq.rhs}` gives {got}\n{text}"})
+                return {"k": k, "mon": mon, "tags": tags, "nontrivial": True}
+        for s in model.statements.after_odes:
+            env[str(s.symbol)] = ev_sympy(s.expression._sympy_(), env)
+        want_ipred = A[o1] / th[1]
+        want_y = want_ipred + A[o2] * eps
+        if not same(env["IPRED"], want_ipred) or not same(env["Y"], want_y):
+            reordered = [order[str(a)] for a in cs.amounts] != list(range(1, n + 1))
+            cls = "error-amount-index-reordered" if reordered else "linear-error-amounts"
+            mon.append({"cls": cls, "what": f"$ERROR `IPRED = A({o1})/V1`, `Y = IPRED + A({o2})*EPS(1)`: compartments of $MODEL are {names}; the model "
+                        f"object has {[str(s.symbol) + ' = ' + str(s.expression) for s in model.statements.after_odes]} "
+                        f"(amounts ordered {[str(a) for a in cs.amounts]})\n{text}"})
+            break
+    dflt_obs = case["defobs"] or _default_obs(names)
+    fl = [s for s in model.statements.after_odes if str(s.symbol) == "F"]
+    if not fl or str(fl[0].expression) != f"A_{names[dflt_obs - 1]}(t)":
+        mon.append({"cls": "linear-default-observation", "what": f"F = {fl[0].expression if fl else None}, default observation compartment is {names[dflt_obs - 1]}\n{text}"})
+    dosed = [c for c in names if len(cs.find_compartment(c).doses) > 0]
+    if dosed != [names[case["defdose"] - 1]]:
+        mon.append({"cls": "linear-default-dose", "what": f"dosed compartments {dosed}, DEFDOSE is {names[case['defdose'] - 1]}\n{text}"})
+    return {"k": k, "mon": mon, "tags": tags, "nontrivial": True}
